@@ -41,6 +41,8 @@ def scenarios(tier):
     out.append(dict(name="sparse-nr0-p1-rel01-rev", fn="run", params=dict(layout="sparse", numrec=0, per=1, N=N, rs=[0, 1], maxp=3, rev=True), cost=20))
     out.append(dict(name="sparse-nr2-p1-rel01-rev", fn="run", params=dict(layout="sparse", numrec=2, per=1, N=N, rs=[0, 1], maxp=3, rev=True), cost=20))
     out.append(dict(name="dense-nr2-p2-rel01-rev", fn="run", params=dict(layout="dense", numrec=2, per=2, N=4, rs=[0, 1], maxp=3, rev=True), cost=30))
+    out.append(dict(name="sparse-nr0-p1-rel01-hatch", fn="run", params=dict(layout="sparse", numrec=0, per=1, N=N, rs=[0, 1], maxp=3, hatch=True), cost=20))
+    out.append(dict(name="dense-nr2-p1-rel01-hatch", fn="run", params=dict(layout="dense", numrec=2, per=1, N=N, rs=[0, 1], maxp=3, hatch=True), cost=20))
     out.append(dict(name="dense-after-warm-start", fn="warm_dense", params={}, cost=20))
     if q:
         # one scenario with records every second step (record number != step number)
@@ -76,12 +78,20 @@ def run(W, p):
     rev = bool(p.get("rev"))
     sgn = -1 if rev else 1
     rows = [[W.dt(T0 + sgn * rs[i] * DT), x[i], 10, 5, mult[i], w0[i]] for i in range(R)]
-    W.table(tmp / "r.rls", ["release_time", "X", "Y", "Z", "mult", "w0"], rows)
+    cols = ["release_time", "X", "Y", "Z", "mult", "w0"]
+    hatch = bool(p.get("hatch"))
+    if hatch:
+        # a time-typed INSTANCE variable taken from the release table
+        cols = cols + ["hatch"]
+        rows = [r + [W.dt(T0 - 86400 * (i + 1))] for i, r in enumerate(rows)]
+    W.table(tmp / "r.rls", cols, rows)
     ivars = dict(pid=ovar("i4"), X=ovar("f8"), age=ovar("f8"), temp=ovar("f8"), lon=ovar("f8"), lat=ovar("f8"))
+    if hatch:
+        ivars["hatch"] = ovar("f8", units="hours since reference_time")
     pvars = dict(w0=ovar("f8"), release_time=ovar("f8", units="seconds since reference_time"))
     cfg = base_config(
         W, start=T0, stop=T0 + sgn * N * DT, dt=DT, rev=rev, reference=ref, release_file=tmp / "r.rls", u=u, temp=temp,
-        state=dict(instance_variables=dict(age=float, temp=float, lon=float, lat=float), particle_variables=dict(w0=float, release_time="time"), default_values=dict(age=0, temp=0, lon=0, lat=0)),
+        state=dict(instance_variables=dict(age=float, temp=float, lon=float, lat=float, **(dict(hatch="time") if hatch else {})), particle_variables=dict(w0=float, release_time="time"), default_values=dict(age=0, temp=0, lon=0, lat=0)),
         ibm=dict(kill=kill, age=True),
         output=dict(filename=str(tmp / "out.nc"), output_period=per * DT, instance_variables=ivars, particle_variables=pvars, layout=layout, numrec=p["numrec"]),
     )
@@ -106,6 +116,8 @@ def run(W, p):
             return 60 + W.frac(10, 4)
         if var == "pid":
             return pid
+        if var == "hatch":  # hours since the reference time
+            return W.frac(1, 3600) * (T0 - 86400 * (i + 1) - ref)
         raise KeyError(var)
 
     numrec = p["numrec"]
@@ -144,7 +156,7 @@ def run(W, p):
                 pids = V["pid"][start:start + count]
                 W.prove(W.all([W.eq(a, b) for a, b in zip(pids, members)]), "members", dict(file=fname, record=k, step=s, expected=members, kd=kd))
                 conds = []
-                for var in ("X", "age", "temp", "lon", "lat"):
+                for var in ("X", "age", "temp", "lon", "lat") + (("hatch",) if hatch else ()):
                     got = V[var][start:start + count]
                     if len(got) != count or any(W.is_fill(g) for g in got):
                         conds.append(False)
@@ -156,7 +168,7 @@ def run(W, p):
             for k, r in enumerate(recs):
                 s = rec_steps[r]
                 conds, fills = [], True
-                for var in ("X", "age", "temp", "lon", "lat"):
+                for var in ("X", "age", "temp", "lon", "lat") + (("hatch",) if hatch else ()):
                     row = V[var][k] if k < len(V[var]) else []
                     for pid in range(total):
                         cell = row[pid] if pid < len(row) else "FILL"
